@@ -171,11 +171,35 @@ def gen(ctx):
     return cases, expect
 
 
+def _fr(fields, binary=None):
+    return {"fields": fields, "bin": binary, "binpos": (len(fields) if binary is not None else None)}
+
+
+def interrupted(ctx):
+    """A response is the frames the server completed, in order, then its error — also when the receive that collects it was interrupted
+    (a read that would block, was interrupted or timed out) after any line of it and then called again."""
+    import connlib
+    lists = [
+        {"form": "list", "frames": [_fr([("a", "1")]), _fr([("b", "2"), ("c", "3")]), _fr([("d", "4")])], "error": None, "partial": None},
+        {"form": "list", "frames": [_fr([("a", "1")]), _fr([], b"xyz"), _fr([("b", "2")])], "error": (50, 3, "play", "No such song"), "partial": None},
+        {"form": "list", "frames": [_fr([]), _fr([("x", "y"), ("x", "y")])], "error": None, "partial": None},
+        {"form": "single", "frames": [_fr([("a", "1"), ("b", "2"), ("a", "3")])], "error": None, "partial": None},
+    ]
+    nxt = {"form": "single", "frames": [_fr([("volume", "5")])], "error": None, "partial": None}
+    out = []
+    for r in lists:
+        out += connlib.interrupted_stream_cases([r, nxt])
+    return out
+
+
 def run(ctx, only=None):
     if only is not None:
         cases, expect = only["cases"], only["expect"]
     else:
         cases, expect = gen(ctx)
+        for c, e in interrupted(ctx):
+            cases.append(c)
+            expect.append(e)
     impl = ctx.run_impl(cases)
     model = ctx.run_model(cases) if ctx.model_ok else None
     dis = compare(cases, impl, model) if model is not None else []
@@ -190,6 +214,7 @@ def run(ctx, only=None):
                 print("model:", model[i][:800])
             print("spec :", (expect[i] or "")[:800])
     dist = {"frame_cases": sum(1 for c in cases if c.startswith("frame")), "response_cases": sum(1 for c in cases if c.startswith("resp")),
+            "interrupted_receives": sum(1 for c in cases if c.startswith("recv")),
             "ops_total": sum(len(c.split(" ")) - 2 for c in cases if c.startswith("frame")),
             "with_get_before_iteration": sum(1 for c in cases if " get:" in c and ("iter:" in c or "into:" in c))}
     nontrivial = {c for c in cases if (" get:" in c and ("iter:" in c or "into:" in c)) or c.startswith("resp")}
